@@ -57,7 +57,12 @@ def run_progs(c, tier, prop):
     byk = {e["k"]: e for e in index}
     n_own = 0
     for f in summ["first_failures"]:
-        if f["class"] == own:
+        dd = (byk.get(f["def"]) or byk.get(f["def"] // 10, {})).get("d") or {}
+        classes = {f["class"]}
+        # a result that differs on a method using integer result codes also speaks for C13 (end-to-end clause)
+        if f["class"] in ("c01", "c02") and "result" in f["msg"] and dd.get("ir"):
+            classes.add("c13")
+        if own in classes:
             n_own += 1
             if n_own <= 3:
                 d = byk.get(f["def"]) or byk.get(f["def"] // 10, {})
